@@ -745,6 +745,7 @@ func (c *Ctx) c09File(pm *pairModel) {
 		}
 	}
 	r.Floor("C09/GUARD/file", "file.Store methods using an mbox", n, 7)
+	c.c09Bucket()
 
 	// visitors
 	for _, rel := range []string{"pkg/storage/mem", "pkg/storage/file"} {
@@ -860,4 +861,50 @@ func reachesNamed(fn *ssa.Function, name string) bool {
 		return hit
 	}
 	return walk(fn)
+}
+
+// c09Bucket: the bucket lock must cover every directory a mailbox operation can create or
+// prune. removeDir prunes empty parents up to the level-1 directory mail/<hash[0:K1]>, and
+// createDir (MkdirAll) re-creates them, holding only the mailbox's bucket lock; two
+// mailboxes that share that directory must therefore share the lock: the lock index may
+// depend on at most the first K1 hash digits.
+func (c *Ctx) c09Bucket() {
+	r, p := c.R, c.P
+	get := p.Method("pkg/storage", "HashLock", "Get")
+	if get == nil {
+		return
+	}
+	lockK := int64(-1)
+	eng.EachInstr(get, func(in ssa.Instruction) {
+		if sl, ok := in.(*ssa.Slice); ok {
+			if _, isParam := sl.X.(*ssa.Parameter); isParam {
+				if k, ok := eng.ConstInt(sl.High); ok {
+					lockK = k
+				}
+			}
+		}
+	})
+	dirK := int64(-1)
+	for _, name := range []string{"mbox", "mboxFromHash"} {
+		fn := p.Method("pkg/storage/file", "Store", name)
+		if fn == nil {
+			continue
+		}
+		eng.EachInstr(fn, func(in ssa.Instruction) {
+			if sl, ok := in.(*ssa.Slice); ok && isString(sl.X.Type()) {
+				if k, ok := eng.ConstInt(sl.High); ok && (dirK == -1 || k < dirK) {
+					dirK = k
+				}
+			}
+		})
+	}
+	cons := "bucket-covers-directory"
+	switch {
+	case lockK < 0 || dirK < 0:
+		r.Undecided("C09/GUARD/file", cons, p.Pos(get.Pos()), "cannot read the hash prefix lengths of HashLock.Get (%d) and of the mailbox path (%d)", lockK, dirK)
+	case lockK > dirK:
+		r.Bad("C09/GUARD/file", cons, p.Pos(get.Pos()), "the bucket lock is chosen by the first %d hash digits but mailboxes share the directory mail/<first %d digits>, which removeDir prunes and createDir re-creates under that lock only: two mailboxes in one directory but different buckets race (a delivery's MkdirAll fails with ENOENT while a sibling mailbox is being emptied)", lockK, dirK)
+	default:
+		r.Ok("C09/GUARD/file", cons, p.Pos(get.Pos()), "lock index uses the first %d hash digits, the shallowest shared mailbox directory the first %d: every pair of mailboxes sharing a directory shares the lock", lockK, dirK)
+	}
 }
